@@ -167,6 +167,7 @@ func runJob(bin string, j *job, timeout time.Duration, extraEnv ...string) []run
 	cmd.Dir = scratchDir()
 	stdout, _ := cmd.StdoutPipe()
 	var errBuf tailBuffer
+	errBuf.big = strings.Contains(bin, ".race.")
 	cmd.Stderr = &errBuf
 	if err := cmd.Start(); err != nil {
 		fatal2("cannot start worker: %v", err)
@@ -196,6 +197,18 @@ func runJob(bin string, j *job, timeout time.Duration, extraEnv ...string) []run
 		}
 	}
 	err := cmd.Wait()
+	if errBuf.big {
+		// race-instrumented worker: attach the detector's reports to the seeds they occurred in
+		bySeed := parseRaces(errBuf.String())
+		for i := range outs {
+			if outs[i].res != nil {
+				outs[i].res.Violations = append(outs[i].res.Violations, bySeed[outs[i].seed]...)
+				if n := harnessRaces[outs[i].seed]; n > 0 {
+					outs[i].res.Probes["race-reports-in-harness-code(ignored)"] += n
+				}
+			}
+		}
+	}
 	if cur != nil {
 		cur.died = true
 		cur.stderr = errBuf.String()
@@ -213,14 +226,19 @@ func runJob(bin string, j *job, timeout time.Duration, extraEnv ...string) []run
 type tailBuffer struct {
 	mu  sync.Mutex
 	buf []byte
+	big bool
 }
 
 func (t *tailBuffer) Write(p []byte) (int, error) {
 	t.mu.Lock()
 	defer t.mu.Unlock()
 	t.buf = append(t.buf, p...)
-	if len(t.buf) > 256<<10 {
-		t.buf = t.buf[len(t.buf)-(128<<10):]
+	limit := 256 << 10
+	if t.big {
+		limit = 64 << 20
+	}
+	if len(t.buf) > limit {
+		t.buf = t.buf[len(t.buf)-limit/2:]
 	}
 	return len(p), nil
 }
@@ -608,6 +626,20 @@ func runProperty(plan *PropertyPlan, tier string, seed uint64, par int, scale fl
 			}
 		}
 	}
+	if os.Getenv("VERIF_LIST_SIGS") != "" {
+		cnt := map[string]int{}
+		for _, f := range newV {
+			cnt[f.v.Sig]++
+		}
+		var ks []string
+		for k := range cnt {
+			ks = append(ks, k)
+		}
+		sort.Strings(ks)
+		for _, k := range ks {
+			fmt.Printf("SIG %d %s\n", cnt[k], k)
+		}
+	}
 	if len(newV) > 0 {
 		// one replay file per distinct signature
 		seen := map[string]bool{}
@@ -619,7 +651,7 @@ func runProperty(plan *PropertyPlan, tier string, seed uint64, par int, scale fl
 			if len(seen) > 5 {
 				break
 			}
-			path := writeReplay(plan, bins, f.v, f.out, shrink, tier)
+			path := writeReplay(plan, bins, f.v, f.out, shrink && !isRaceFamily(plan, f.out.family), tier)
 			fmt.Printf("VIOLATION property=%s replay=%s\n", plan.ID, path)
 			fmt.Printf("  clause=%s sig=%q seed=%d: %s\n", f.v.Clause, f.v.Sig, f.out.seed, f.v.Msg)
 		}
@@ -956,4 +988,173 @@ func cmdSelftest(args []string) {
 	if bad > 0 {
 		os.Exit(2)
 	}
+}
+
+// ---------------------------------------------------------------------------
+// race reports
+
+var seedMarkRe = regexp.MustCompile(`(?m)^VERIF-SEED (\S+) (\d+)$`)
+var accessRe = regexp.MustCompile(`(?m)^(Write|Read|Previous write|Previous read|Atomic write|Atomic read|Previous atomic write|Previous atomic read) at `)
+var harnessRaces = map[uint64]int{}
+var harnessRacesMu sync.Mutex
+
+func isHarnessFn(fn string) bool {
+	return strings.Contains(fn, "/zverif/") || strings.Contains(fn, "fan2go/internal/simhook")
+}
+
+func isRepoFn(fn string) bool {
+	return (strings.HasPrefix(fn, "github.com/markusressel/fan2go/internal") || strings.HasPrefix(fn, "github.com/markusressel/fan2go/cmd")) && !isHarnessFn(fn)
+}
+
+// accessSite names one access of a race report: the first repository frame,
+// plus the top frame when that is library code called from the repository.
+func accessSite(lines []string) (site string, harness bool) {
+	var fns []string
+	for _, l := range lines {
+		if strings.HasPrefix(l, "  ") && !strings.HasPrefix(l, "   ") {
+			fn := strings.TrimSpace(l)
+			fn = strings.TrimSuffix(fn, "()")
+			fns = append(fns, fn)
+		}
+	}
+	if len(fns) == 0 {
+		return "?", false
+	}
+	if isHarnessFn(fns[0]) {
+		return fns[0], true
+	}
+	short := func(fn string) string { return strings.TrimPrefix(fn, "github.com/markusressel/fan2go/") }
+	for i, fn := range fns {
+		if isHarnessFn(fn) {
+			// library code called directly by the harness (e.g. a client task encoding JSON)
+			if i == 0 {
+				return fn, true
+			}
+			return short(fns[0]) + " (called by harness client)", false
+		}
+		if isRepoFn(fn) {
+			if i == 0 {
+				return short(fn), false
+			}
+			return short(fn) + " via " + fns[0], false
+		}
+	}
+	return fns[0], false
+}
+
+func parseRaces(stderr string) map[uint64][]check.Violation {
+	out := map[uint64][]check.Violation{}
+	marks := seedMarkRe.FindAllStringSubmatchIndex(stderr, -1)
+	seedAt := func(pos int) (uint64, bool) {
+		var seed uint64
+		ok := false
+		for _, m := range marks {
+			if m[0] > pos {
+				break
+			}
+			seed, _ = strconv.ParseUint(stderr[m[4]:m[5]], 10, 64)
+			ok = true
+		}
+		return seed, ok
+	}
+	seen := map[string]bool{}
+	idx := 0
+	for {
+		i := strings.Index(stderr[idx:], "WARNING: DATA RACE")
+		if i < 0 {
+			break
+		}
+		start := idx + i
+		end := strings.Index(stderr[start:], "\n==================")
+		block := stderr[start:]
+		if end >= 0 {
+			block = stderr[start : start+end]
+		}
+		idx = start + len("WARNING: DATA RACE")
+		seed, ok := seedAt(start)
+		if !ok {
+			continue
+		}
+		locs := accessRe.FindAllStringIndex(block, -1)
+		if len(locs) < 2 {
+			continue
+		}
+		sec := func(a, b int) []string {
+			lines := strings.Split(block[a:b], "\n")
+			var keep []string
+			for _, l := range lines[1:] {
+				if strings.TrimSpace(l) == "" {
+					break
+				}
+				keep = append(keep, l)
+			}
+			return keep
+		}
+		a, ha := accessSite(sec(locs[0][0], locs[1][0]))
+		b, hb := accessSite(sec(locs[1][0], len(block)))
+		if ha || hb {
+			harnessRacesMu.Lock()
+			harnessRaces[seed]++
+			harnessRacesMu.Unlock()
+			continue
+		}
+		if a > b {
+			a, b = b, a
+		}
+		// the finding's identity is the pair of owners of the racing state (receiver
+		// type / handler group); the exact call sites go into the message
+		oa, ob := raceOwner(a), raceOwner(b)
+		if oa > ob {
+			oa, ob = ob, oa
+		}
+		sig := "race " + oa + " <-> " + ob
+		key := fmt.Sprint(seed) + sig
+		if seen[key] {
+			continue
+		}
+		seen[key] = true
+		out[seed] = append(out[seed], check.Violation{Property: "C20", Clause: "data-race", Sig: sig, Msg: "the Go race detector reports unsynchronised accesses: " + a + "  <->  " + b})
+	}
+	return out
+}
+
+func isRaceFamily(plan *PropertyPlan, name string) bool {
+	for _, f := range plan.Families {
+		if f.Name == name {
+			return f.Race
+		}
+	}
+	return false
+}
+
+var recvRe = regexp.MustCompile(`^(.*?\.\(\*?[A-Za-z0-9_]+\))\.`)
+
+// raceOwner reduces a call site to the owner of the state it touches: the
+// receiver type of a method, or the handler group of an API function.
+func raceOwner(site string) string {
+	fn := site
+	if i := strings.Index(fn, " via "); i >= 0 {
+		fn = fn[:i]
+	}
+	if i := strings.Index(fn, " (called by"); i >= 0 {
+		fn = fn[:i]
+	}
+	if m := recvRe.FindStringSubmatch(fn); m != nil {
+		return m[1]
+	}
+	switch {
+	case strings.HasPrefix(fn, "internal/api.getFan"):
+		return "internal/api(fans)"
+	case strings.HasPrefix(fn, "internal/api.getCurve"):
+		return "internal/api(curves)"
+	case strings.HasPrefix(fn, "internal/api.getSensor"):
+		return "internal/api(sensors)"
+	case strings.HasPrefix(fn, "internal/persistence.persistence."):
+		return "internal/persistence(loaded map)"
+	}
+	// closures: pkg.Func.func1 → pkg.Func
+	if i := strings.Index(fn, ".func"); i > 0 {
+		fn = fn[:i]
+	}
+	return fn
 }
